@@ -24,7 +24,6 @@ import (
 	"net"
 	"net/http"
 	"net/http/httptest"
-	"net/textproto"
 	"net/url"
 	"os"
 	"sort"
@@ -177,16 +176,6 @@ func genCfg(t *rapid.T) Cfg {
 		c.UserAgent = rapid.SampledFrom(uaPool).Draw(t, "ua")
 	}
 	nh := rapid.IntRange(0, 4).Draw(t, "nheaders")
-	seen := map[string]bool{}
-	for i := 0; i < nh; i++ {
-		n := rapid.SampledFrom(hdrNamePool).Draw(t, "hname")
-		k := strings.ToLower(n)
-		if seen[k] {
-			continue
-		}
-		seen[k] = true
-		c.Headers = append(c.Headers, n+": "+genValue(t, hdrValuePool, "hvalue"))
-	}
 	nr := rapid.IntRange(0, 3).Draw(t, "nresp")
 	seenR := map[string]bool{}
 	for i := 0; i < nr; i++ {
@@ -203,6 +192,14 @@ func genCfg(t *rapid.T) Cfg {
 	}
 	c.BehindRedir = rapid.Bool().Draw(t, "redir")
 	genCfgExtras(t, &c, true)
+	// the Headers list: in 4 of 10 configurations with the header-NAME classes (names another
+	// setting or the HTTP stack owns, repeated names, case variants, trailing blank), see names_test.go
+	special := rapid.IntRange(0, 9).Draw(t, "header-name-classes") < 4
+	if special && nh == 0 {
+		nh = rapid.IntRange(1, 3).Draw(t, "nheaders-special")
+	}
+	c.Headers = genHeaderEntries(t, nh, special, c)
+	relateUA(t, &c)
 	return c
 }
 
@@ -409,16 +406,24 @@ func genReq(t *rapid.T, c Cfg, idx int) Req {
 	} else {
 		r.URI = rapid.SampledFrom(uris).Draw(t, "pick-uri")
 	}
-	if c.UserAgent != "" {
+	uaE, hasUAE := uaEntry(c)
+	switch {
+	case c.UserAgent != "" && hasUAE && uaE != c.UserAgent && rapid.IntRange(0, 2).Draw(t, "ua-from-entry") == 0:
+		r.HasUA, r.UA = true, uaE // setting and entry disagree: this request follows the entry
+	case c.UserAgent != "":
 		r.HasUA, r.UA = true, c.UserAgent
-	} else if rapid.Bool().Draw(t, "send-ua") {
-		r.HasUA, r.UA = true, rapid.SampledFrom(uaPool).Draw(t, "free-ua")
+	case hasUAE:
+		r.HasUA, r.UA = true, uaE // the user agent is configured through the Headers list only
+	default:
+		if rapid.Bool().Draw(t, "send-ua") {
+			r.HasUA, r.UA = true, rapid.SampledFrom(uaPool).Draw(t, "free-ua")
+		}
 	}
-	for _, h := range c.Headers {
-		n, v := splitCfgHeader(h)
-		r.Headers = append(r.Headers, Hdr{varyNameCase(t, n), v})
-	}
+	canonicalRequestHeaders(t, c, &r)
 	r.Host, r.HostClass = genHost(t, c)
+	if hv, ok := hostEntry(c); ok && rapid.Bool().Draw(t, "host-from-entry") {
+		r.Host, r.HostClass = hv, "configured-host-entry"
+	}
 	r.Extra = genExtra(t, c)
 	r.Peer = rapid.SampledFrom(peerPool).Draw(t, "peer")
 	if c.BehindRedir || rapid.IntRange(0, 2).Draw(t, "spoof-xff") == 0 {
@@ -444,7 +449,11 @@ func genReq(t *rapid.T, c Cfg, idx int) Req {
 			}
 			continue
 		}
-		if applyMut(t, c, &r, m) {
+		tgt := ""
+		if applyMut(t, c, &r, m, &tgt) {
+			if tgt != "" {
+				m += "@" + tgt // the name class of the header the mutation hit (names_test.go)
+			}
 			applied = append(applied, m)
 		}
 	}
@@ -469,9 +478,9 @@ func applicable(c Cfg, r *Req) []string {
 		out = append(out, "path-wrong", "path-extra-query", "path-case", "path-prefix")
 	}
 	if len(nonIgnoredIdx(r)) > 0 {
-		out = append(out, "hdr-missing", "hdr-wrong", "hdr-case", "hdr-truncated", "hdr-truncated", "hdr-extended")
+		out = append(out, "hdr-missing", "hdr-wrong", "hdr-case", "hdr-truncated", "hdr-truncated", "hdr-extended", "hdr-duplicated")
 	}
-	if c.UserAgent != "" {
+	if uaDemanded(c) {
 		out = append(out, "ua-wrong", "ua-missing", "ua-case")
 	}
 	for _, h := range r.Headers {
@@ -483,7 +492,7 @@ func applicable(c Cfg, r *Req) []string {
 	return out
 }
 
-func applyMut(t *rapid.T, c Cfg, r *Req, m string) bool {
+func applyMut(t *rapid.T, c Cfg, r *Req, m string, target *string) bool {
 	uris := effectiveUris(c)
 	switch m {
 	case "method-get":
@@ -520,7 +529,7 @@ func applyMut(t *rapid.T, c Cfg, r *Req, m string) bool {
 			return false
 		}
 		r.URI = r.URI + "x"
-	case "hdr-missing", "hdr-wrong", "hdr-case", "hdr-truncated", "hdr-extended":
+	case "hdr-missing", "hdr-wrong", "hdr-case", "hdr-truncated", "hdr-extended", "hdr-duplicated":
 		idx := nonIgnoredIdx(r)
 		if len(idx) == 0 {
 			return false
@@ -536,7 +545,17 @@ func applyMut(t *rapid.T, c Cfg, r *Req, m string) bool {
 			}
 		}
 		v := r.Headers[i].Value
+		*target = headerTargetClass(c, r.Headers[i].Name)
 		switch m {
+		case "hdr-duplicated":
+			// the header twice in the request, the other value before or after the right one
+			// (Header.Get sees the first only)
+			other := Hdr{r.Headers[i].Name, "other-" + fmt.Sprint(len(v))}
+			if rapid.Bool().Draw(t, "dup-before") {
+				r.Headers = append(r.Headers[:i:i], append([]Hdr{other}, r.Headers[i:]...)...)
+			} else {
+				r.Headers = append(r.Headers[:i+1:i+1], append([]Hdr{other}, r.Headers[i+1:]...)...)
+			}
 		case "hdr-missing":
 			r.Headers = append(r.Headers[:i:i], r.Headers[i+1:]...)
 		case "hdr-wrong":
@@ -571,20 +590,20 @@ func applyMut(t *rapid.T, c Cfg, r *Req, m string) bool {
 			r.Headers[i].Value = v + ": more"
 		}
 	case "ua-wrong":
-		if c.UserAgent == "" {
+		if !uaDemanded(c) {
 			return false
 		}
-		r.HasUA, r.UA = true, c.UserAgent+"/x"
+		r.HasUA, r.UA = true, uaBase(c, r)+"/x"
 	case "ua-missing":
-		if c.UserAgent == "" {
+		if !uaDemanded(c) {
 			return false
 		}
 		r.HasUA, r.UA = false, ""
 	case "ua-case":
-		if c.UserAgent == "" {
+		if !uaDemanded(c) {
 			return false
 		}
-		f := flipCase(c.UserAgent)
+		f := flipCase(uaBase(c, r))
 		if f == "" {
 			return false
 		}
@@ -635,15 +654,13 @@ type verdict struct {
 	Reasons    []string // violated constraints (MustReject) or grey features (neither)
 }
 
-func reqHeader(r Req, name string) (string, bool) {
-	// what net/http's Header.Get gives: first value under the canonical name
-	cn := textproto.CanonicalMIMEHeaderKey(name)
-	for _, h := range r.Headers {
-		if textproto.CanonicalMIMEHeaderKey(h.Name) == cn {
-			return h.Value, true
+func anyFolds(vals []string, want string) bool {
+	for _, v := range vals {
+		if strings.ToLower(v) == strings.ToLower(want) {
+			return true
 		}
 	}
-	return "", false
+	return false
 }
 
 func judge(c Cfg, r Req) verdict {
@@ -673,22 +690,76 @@ func judge(c Cfg, r Req) verdict {
 			bad = append(bad, "uri")
 		}
 	}
+	dh := deliveredHeader(r) // Request.Header as net/http hands it to a handler
 	if c.UserAgent != "" {
+		uas := dh.Values("User-Agent")
 		switch {
-		case !r.HasUA:
+		case len(uas) == 0:
 			bad = append(bad, "ua-missing")
-		case r.UA != c.UserAgent && strings.EqualFold(r.UA, c.UserAgent) && strings.ToLower(r.UA) != strings.ToLower(c.UserAgent):
+		case len(uas) > 1:
+			bad = append(bad, "ua") // not generated; a request with several user agents does not "have the configured one"
+		case uas[0] != c.UserAgent && strings.EqualFold(uas[0], c.UserAgent) && strings.ToLower(uas[0]) != strings.ToLower(c.UserAgent):
 			bad = append(bad, "ua-unicode-fold-partner")
-		case r.UA != c.UserAgent:
+		case uas[0] != c.UserAgent:
 			bad = append(bad, "ua")
 		}
 	}
 	for _, h := range c.Headers {
 		n, want := splitCfgHeader(h)
 		if isIgnored(n) {
+			continue // the documented skip list: Connection, Accept-Encoding (any letter case) - nothing else
+		}
+		if !isTokenName(n) {
+			// e.g. a trailing blank: no request that reaches a handler can carry a header of that name
+			bad = append(bad, "header-name-not-deliverable")
 			continue
 		}
-		got, ok := reqHeader(r, n)
+		cn := canonName(n)
+		switch cn {
+		case "Host":
+			// the request's Host is Request.Host; HEAD looks for it in Request.Header, where it never is
+			if strings.ToLower(r.Host) == strings.ToLower(want) {
+				grey = append(grey, "host-entry-equals-request-host")
+			} else {
+				bad = append(bad, "host-entry")
+			}
+			continue
+		case "Content-Length":
+			if want != fmt.Sprint(regBodyLen()) {
+				bad = append(bad, "content-length-entry")
+			}
+			continue
+		}
+		vals := dh.Values(cn)
+		if len(vals) > 1 {
+			// the header is repeated in the request: carrying the configured value among them is accepted
+			// either way (Header.Get reads the first); carrying it nowhere is a wrong value
+			if anyFolds(vals, want) {
+				grey = append(grey, "header-repeated-in-request")
+			} else if cn == "User-Agent" {
+				bad = append(bad, "ua-entry")
+			} else {
+				bad = append(bad, "header-value")
+			}
+			continue
+		}
+		got, ok := "", len(vals) == 1
+		if ok {
+			got = vals[0]
+		}
+		if cn == "User-Agent" {
+			// a "User-Agent: v" entry of the Headers list is a configured header like any other
+			switch {
+			case !ok:
+				bad = append(bad, "ua-entry-missing")
+			case got == want:
+			case strings.ToLower(got) == strings.ToLower(want):
+				grey = append(grey, "header-value-case")
+			default:
+				bad = append(bad, "ua-entry")
+			}
+			continue
+		}
 		switch {
 		case !ok && strings.HasPrefix(want, ": "):
 			// Header.Get gives "" for an absent header: the same as the configured value cut at its first ": "
@@ -872,21 +943,8 @@ func buildRequest(r Req, agentID uint32) *http.Request {
 		Header: http.Header{}, Body: io.NopCloser(bytes.NewReader(body)), ContentLength: int64(len(body)),
 		Host: r.Host, RemoteAddr: r.Peer, RequestURI: r.URI,
 	}
-	for _, h := range r.Headers {
-		req.Header.Add(h.Name, h.Value)
-	}
-	for _, h := range r.Extra {
-		if req.Header.Get(h.Name) == "" { // never shadows a header the case already carries
-			req.Header.Add(h.Name, h.Value)
-		}
-	}
-	if r.HasUA {
-		req.Header.Set("User-Agent", r.UA)
-	}
-	if r.XFF != "" {
-		req.Header.Set("X-Forwarded-For", r.XFF)
-	}
-	req.Header.Set("Content-Length", fmt.Sprint(len(body)))
+	req.Header = deliveredHeader(r)
+	req.Header.Set("Content-Length", fmt.Sprint(len(body))) // the stack's: always the length of the body
 	return req
 }
 
@@ -1022,7 +1080,7 @@ func nConstraints(c Cfg) int {
 			n++
 		}
 	}
-	return n
+	return n // an entry named User-Agent / Host / Content-Length counts as a constraint of its own
 }
 
 func bucket(n int) string {
@@ -1059,6 +1117,10 @@ func classify(c Case) core.Class {
 		}
 	}
 	cl.Labels = append(cl.Labels, unicodeCfgLabels(c.Cfg)...)
+	nameClasses := nameClassLabels(c.Cfg)
+	for _, l := range nameClasses {
+		cl.Labels = append(cl.Labels, "cfg:"+l)
+	}
 	var fp []string
 	for _, r := range c.Reqs {
 		v := judge(c.Cfg, r)
@@ -1078,9 +1140,11 @@ func classify(c Case) core.Class {
 		}
 		if r.Mut != "" {
 			for _, m := range strings.Split(r.Mut, "+") {
+				m, _, _ = strings.Cut(m, "@")
 				cl.Labels = append(cl.Labels, "mut:"+m)
 			}
 		}
+		cl.Labels = append(cl.Labels, nameClassReqLabels(nameClasses, r, v)...)
 		cl.Labels = append(cl.Labels, unicodeReqLabels(r, v)...)
 		if nc >= 1 && (v.MustAdmit || (v.MustReject && len(v.Reasons) == 1)) {
 			cl.NonTrivial = true
@@ -1159,15 +1223,15 @@ func TestMain(m *testing.M) {
 func TestC12a(t *testing.T) {
 	core.Run(t, core.Spec[Case]{
 		Property: "C12", Sub: "a",
-		Rule: "every field of HTTPConfig is drawn: besides those below, 1-3 Hosts with/without port, HostHeader (unset / a name / name:port / equal to a host / resembling one), rotation, PortConn, proxy settings, kill date, working hours, method spelling, TLS (rarely - about 1/3000 quick, 1/1500 thorough: a real certificate is generated); requests additionally draw Request.Host (the canonical one = HostHeader or a host, case variant, port added/removed, one of Hosts, the bind address, garbage, empty, another host) and 0-3 further headers with names that are not configured (X-Forwarded-Host, Referer, Origin, Cookie, Content-Type, X-Real-IP, Forwarded, Authorization): by the statement none of these influences admission. Admission-relevant part: listener configuration (0-4 URIs with/without query or the [\"\"] form, user agent set/unset, 0-4 request headers 'Name: value' incl. the ignored Connection/Accept-Encoding and values containing ': ' and ':', 0-3 response headers with values containing ':', redirector flag) on the real handlers.HTTP after Start(); 1-6 requests generated around that configuration: the canonical Demon request, or with one / several of {GET,PUT,HEAD, wrong path, extra query, path case, path suffix, header missing/wrong/case/truncated/extended, user agent wrong/missing/case, ignored header altered; Unicode classes: a configured header value / the user agent / the URI with one letter replaced by a Unicode simple-case-folding partner outside the ASCII pair (long s U+017F for s, Kelvin sign U+212A for k, final sigma / sigma, micro sign / mu, Greek symbol variants) or by a confusable (fullwidth form, combining mark appended, the other normalisation form NFC/NFD, Cyrillic / Greek / Turkic look-alike incl. dotted capital I), the URI also percent-encoded - the pools of configured values contain s / k / sigma / micro / sharp s / composed letters for that}, IPv4 and IPv6 peers, X-Forwarded-For present or not; body = valid registration. Oracle from the statement: a header value counts as 'the configured value' when it is byte-equal (must admit) or has the same lower-case form (the documented case-insensitive comparison: grey, accepted either way - that includes the Kelvin sign for k and dotted capital I for i, whose lower-case forms are k and i); a value that merely case-FOLDS to the configured one (long s, final sigma, micro sign) or is a confusable of it is a different value and must get the decoy, and the user agent and the URI compare exactly; admitted => all constraints hold; all hold => admitted with 200 + registration reply + every response header with its full value + ExternalIP = peer IP (or X-Forwarded-For iff redirector); otherwise 404 and no recorder event. Non-trivial: >=1 configured constraint and a request that satisfies all or violates exactly one; distinct = (constraint bucket, redirector, config feature, verdict kind of the first non-trivial request)",
+		Rule: "every field of HTTPConfig is drawn: besides those below, 1-3 Hosts with/without port, HostHeader (unset / a name / name:port / equal to a host / resembling one), rotation, PortConn, proxy settings, kill date, working hours, method spelling, TLS (rarely - about 1/3000 quick, 1/1500 thorough: a real certificate is generated); requests additionally draw Request.Host (the canonical one = HostHeader or a host, case variant, port added/removed, one of Hosts, the bind address, garbage, empty, another host) and 0-3 further headers with names that are not configured (X-Forwarded-Host, Referer, Origin, Cookie, Content-Type, X-Real-IP, Forwarded, Authorization): by the statement none of these influences admission. Admission-relevant part: listener configuration (0-4 URIs with/without query or the [\"\"] form, user agent set/unset, 0-4 request headers 'Name: value' incl. the ignored Connection/Accept-Encoding and values containing ': ' and ':', 0-3 response headers with values containing ':', redirector flag) on the real handlers.HTTP after Start(); 1-6 requests generated around that configuration: the canonical Demon request, or with one / several of {GET,PUT,HEAD, wrong path, extra query, path case, path suffix, header missing/wrong/case/truncated/extended, user agent wrong/missing/case, ignored header altered; Unicode classes: a configured header value / the user agent / the URI with one letter replaced by a Unicode simple-case-folding partner outside the ASCII pair (long s U+017F for s, Kelvin sign U+212A for k, final sigma / sigma, micro sign / mu, Greek symbol variants) or by a confusable (fullwidth form, combining mark appended, the other normalisation form NFC/NFD, Cyrillic / Greek / Turkic look-alike incl. dotted capital I), the URI also percent-encoded - the pools of configured values contain s / k / sigma / micro / sharp s / composed letters for that; header repeated in the request with another value before / after the right one}, IPv4 and IPv6 peers, X-Forwarded-For present or not; body = valid registration. Header-NAME classes (4 of 10 configurations; each verified against HEAD over a real socket before it was modelled): entries of the Headers list named User-Agent (UserAgent setting unset / the same value / a different value), Host (HostHeader unset / set), Content-Length (equal to the body length or not), Content-Type, Cookie, Connection / Accept-Encoding, the same name twice (same / different values), a name differing only in case from another entry, names in non-canonical case (lower / upper), a name with a trailing blank; requests follow the configuration (user agent from the setting or, when only the Headers list names one, from the entry; Request.Host from the Host entry in half of the cases; stack-owned names are not sent as ordinary headers) and are mutated at those entries (user agent wrong / missing / case / fold partner / confusable, that header missing / different / truncated / extended / repeated); every request is judged on Request.Header as net/http delivers it (canonical names, no Host, Content-Length = body length, a name that is not a token undeliverable): admitted only if it matches method, URI, the UserAgent setting AND every entry the documented skip list (Connection, Accept-Encoding) does not exempt - a User-Agent entry is a header like any other (same lower-case form), a Host entry is matched against Request.Host (equal: accepted either way, HEAD never finds Host in Request.Header; different: decoy), a Content-Length entry against the body length, an undeliverable name rejects everything, a header repeated in the request that carries the configured value among its values is accepted either way. Oracle from the statement: a header value counts as 'the configured value' when it is byte-equal (must admit) or has the same lower-case form (the documented case-insensitive comparison: grey, accepted either way - that includes the Kelvin sign for k and dotted capital I for i, whose lower-case forms are k and i); a value that merely case-FOLDS to the configured one (long s, final sigma, micro sign) or is a confusable of it is a different value and must get the decoy, and the user agent and the URI compare exactly; admitted => all constraints hold; all hold => admitted with 200 + registration reply + every response header with its full value + ExternalIP = peer IP (or X-Forwarded-For iff redirector); otherwise 404 and no recorder event. Non-trivial: >=1 configured constraint and a request that satisfies all or violates exactly one; distinct = (constraint bucket, redirector, config feature, verdict kind of the first non-trivial request)",
 		Gen:  gen, Check: check, Classify: classify,
 		Assumptions: []string{
 			"requests are delivered in-process through GinEngine.ServeHTTP with canonical header names and trimmed values, as net/http's server delivers them",
-			"request header names that net/http treats specially (Host, Content-Length, User-Agent, X-Forwarded-For) and duplicate names are outside the configuration generator; Host is configured through HostHeader",
+			"of the request header names net/http or another setting owns, Host, Content-Length and User-Agent are configured as Headers entries too (modelled as net/http delivers them: Host only in Request.Host, Content-Length always the body length, one User-Agent); X-Forwarded-For, Transfer-Encoding and empty values ('Name: ') stay outside the configuration generator",
 			"configured headers have the 'Name: value' form; header values are valid UTF-8 (mostly ASCII, some with Greek letters, micro sign, sharp s, composed or decomposed accented letters) without leading/trailing blanks; bytes >= 0x80 are legal in header values and request-targets for Go's net/http server",
-			"grey zones accepted either way: a request whose path equals a configured URI but carries an extra query string; a header value differing only in letter case (documented as case-insensitive), read as: both values have the same lower-case form under strings.ToLower - equality under Unicode case FOLDING alone is not 'another letter case' and must be rejected; URIs == [\"\"] means none configured",
+			"grey zones accepted either way: a request whose path equals a configured URI but carries an extra query string; a configured Host entry when Request.Host equals it; a configured header that the request repeats with the configured value among its values; a header value differing only in letter case (documented as case-insensitive), read as: both values have the same lower-case form under strings.ToLower - equality under Unicode case FOLDING alone is not 'another letter case' and must be rejected; URIs == [\"\"] means none configured",
 			"a request that differs from the canonical form only in the two documented ignored headers counts as satisfying",
-			"admission depends on method, URI, user agent and the configured request headers only (statement; HEAD reads nothing else): Request.Host, HostHeader, Hosts, proxy, TLS and further request headers do not change the verdict",
+			"admission depends on method, URI, user agent and the configured request headers only (statement; HEAD reads nothing else): Request.Host (unless the Headers list has a Host entry), HostHeader, Hosts, proxy, TLS and further request headers do not change the verdict",
 			"behind a redirector a request always carries X-Forwarded-For with a single address",
 		},
 	})
